@@ -1,5 +1,6 @@
 import MetricsVerif.Driver.Util
 import MetricsVerif.Model.Atomics
+import MetricsVerif.Model.AtomicsCas
 
 /-
 Line protocol of component `atomics` (C04).
@@ -12,6 +13,12 @@ Line protocol of component `atomics` (C04).
   atomics dconv <arg>                  `__into_f64` of one argument:       <hex>
   atomics itrace <c0> <progs> <sched>  like `trace`, on the bit-level IEEE carrier (`ieeeCarrier`: every f64 operand,
                                        rounding included); a NaN cell prints as `nan`:  t=<hex|nan>.… n=<log length>
+  atomics ctrace <c0> <progs> <sched>  the CAS-loop machine (`casStep`, `casShape`: gauge increment/decrement = load + CAS per closure
+                                       evaluation; counters and set single instructions) on the IEEE carrier, no spurious CAS
+                                       failures; per scheduled step `c<hex|nan>` (an update took effect: the cell after it), `l`
+                                       (load / failed CAS: the thread is at the closure's yield point), `n` (no-op handle call
+                                       returned), `-` (nothing):   t=<tok>.… n=<log length> cell=<hex|nan> done=<0|1>
+  atomics ctraceu …                    the same for counter programs: the cell is a u64, always printed as hex
   atomics upd <input> <a|i|d> <arg>    `GaugeValue::{Absolute,Increment,Decrement}(arg).update_value(input)` on the
                                        IEEE carrier (<input> = f64 bits, hex):             <hex|nan>
 
@@ -126,6 +133,21 @@ def progTokI (s : String) : Option (List (Call Nat)) :=
 /-- a gauge cell on the IEEE carrier: NaNs by class only -/
 def cellTokI (b : Nat) : String := if f64IsNaN b then "nan" else hex16 b
 
+/-- `atomics ctrace` / `ctraceu`: the CAS-loop machine on the IEEE carrier, one token per scheduled step -/
+def ctrace (raw : Bool) (c0 progs sched : String) : Option String := do
+    let cellTok : Nat → String := if raw then hex16 else cellTokI
+    let c0 ← unhexNat c0
+    if two64 ≤ c0 then none
+    let progs ← listTok progTokI progs
+    let sched ← schedTok sched
+    let (s, tr) := sched.foldl (fun (acc : Sys Nat × List String) tid =>
+        let s' := casStep ieeeCarrier casShape acc.1 (tid, false)
+        let k := stepKind acc.1 s' tid
+        (s', (if k == "c" then "c" ++ cellTok s'.cell else k) :: acc.2)) (init c0 progs, [])
+    let t := if tr.isEmpty then "-" else ".".intercalate tr.reverse
+    let done := s.threads.all (fun t => t.prog.isEmpty)
+    pure s!"t={t} n={s.log.length} cell={cellTok s.cell} done={b01 done}"
+
 def handle (args : List String) : Option String :=
   match args with
   | ["itrace", c0, progs, sched] => do
@@ -138,6 +160,8 @@ def handle (args : List String) : Option String :=
         (s', cellTokI s'.cell :: acc.2)) (init c0 progs, [])
     let t := if tr.isEmpty then "-" else ".".intercalate tr.reverse
     pure s!"t={t} n={s.log.length}"
+  | ["ctrace", c0, progs, sched] => ctrace false c0 progs sched
+  | ["ctraceu", c0, progs, sched] => ctrace true c0 progs sched
   | ["upd", inp, k, a] => do
     let inp ← unhexNat inp
     if two64 ≤ inp then none
